@@ -179,7 +179,9 @@ class SimT(Simulator):
             j = i + 1
             while j < len(m) and (m[j][1].strip() == "" or len(m[j][1]) - len(m[j][1].lstrip(" ")) > ind):
                 j += 1
-            yield dict(plan, method=m[:i] + m[j:])
+            from sims.sime.sim import _bodies_intact
+            if _bodies_intact(m[:i] + m[j:]):
+                yield dict(plan, method=m[:i] + m[j:])
         sf = plan["switch_fractions"]
         if sf["R"]:
             yield dict(plan, switch_fractions={"T": sf["T"], "R": []})
